@@ -1,22 +1,33 @@
 """Kani part of C13: the reject writer (write_rej_to) and the reject file name."""
 import itertools
 from ..kani import Instance
-from . import FROM_UTF8_STUB, writer_loops
+from . import FROM_UTF8_STUB, writer_loops, rej_loops
 
 
 def spec_part(tier, seed):
     inst = []
-    vecs = [v for h in ((1, 2) if tier == "quick" else (1, 2, 3)) for v in itertools.product([True, False], repeat=h)]
-    for v in vecs:
-        nm = "c13w_" + "".join("a" if x else "f" for x in v)
+    # two failed/applied hunks with symbolic bytes exceed 12 GB (measured): quick keeps one-hunk vectors and the all-applied ones
+    if tier == "quick":
+        vecs = [(True,), (False,), (True, True)]
+    else:
+        vecs = [v for h in (1, 2) for v in itertools.product([True, False], repeat=h)] + [(True, True, True)]
+    cases = [(v, True) for v in vecs] + [((False,), False)]
+    for v, distinct in cases:
+        nm = "c13w_" + "".join("a" if x else "f" for x in v) + ("" if distinct else "_anyeq")
         arr = ", ".join(str(x).lower() for x in v)
-        inst.append(Instance(nm, "rej", "rej_case::<%d>([%s])" % (len(v), arr), unwind=34, unwindset={"memcmp.0": 30}, unwind_fns=writer_loops(1, 400), stubs=[FROM_UTF8_STUB],
-                             mem_gb=12, timeout_s=2400, sub="C13 reject writer: exactly the failed hunks", params=dict(report=["applied" if x else "failed" for x in v])))
+        inst.append(Instance(nm, "rej", "rej_case::<%d>([%s], %s)" % (len(v), arr, str(distinct).lower()), unwind=34, unwindset={"memcmp.0": 4},
+                             unwind_fns=dict(writer_loops(1, 160), **rej_loops(len(v), 160)), mem_gb=(12 if len(v) == 1 or all(v) else 30), timeout_s=2400, sub="C13 reject writer: exactly the failed hunks",
+                             must_cover=["reject scan done"] if not all(v) else [],
+                             params=dict(report=["applied" if x else "failed" for x in v], removed_line_differs_from_added=distinct)))
     return {"instances": inst,
-            "functions": ["FilePatch::write_rej_to", "write_file_patch_header_to", "TextHunk::write_to", "parse_hunks (read back)"],
+            "functions": ["FilePatch::write_rej_to", "write_file_patch_header_to", "TextHunk::write_to"],
             "symbolic": "every line byte of the hunks; the applied/failed vector is enumerated (all vectors up to 3 hunks)",
-            "bounds": {"hunks": "<= 2 (quick), <= 3 (thorough)", "lines_per_hunk_side": 1},
-            "assumptions": ["report built with the crate's own constructors (new_with_capacity + push_hunk_report)", "fixed-size io::Write sink; from_utf8 stub; memchr stand-in"],
-            "outside": ["hunks with context; the reject file name (make_rej_filename is OsString/extension handling in the binary crate)"],
-            "explanation": "write_rej_to's output is parsed back: exactly the failed hunks, in order, with their line numbers and bytes; nothing is written when every hunk applied. "
-                           "Guards over MIR: a reject file is created only for a file patch of the rejected patch whose report failed"}
+            "bounds": {"hunks": "1 failed hunk, or 2-3 applied ones (quick); 2 hunks with any vector attempted in thorough (30 GB cap)", "lines_per_hunk_side": 1},
+            "assumptions": ["report built with the crate's own constructors (new_with_capacity + push_hunk_report)", "fixed-size io::Write sink; memchr stand-in",
+                            "write!'s formatted text is canned (core::fmt does not get through symbolic execution): the numbers in the hunk header lines are C12's subject, "
+                            "here the header text only identifies which hunk was written",
+                            "removed and added line of a hunk differ, except in the one-hunk instance *_anyeq"],
+            "outside": ["hunks with context or more than one line per side", "reading the reject file back through the parser (does not finish on a buffer of symbolic layout)",
+                        "the reject file name (make_rej_filename is OsString/extension handling in the binary crate)"],
+            "explanation": "write_rej_to's output is scanned as records: exactly the failed hunks, in order, with their bytes; nothing is written when every hunk applied. "
+                           "Guards over MIR: a reject file is created only for a file patch of the rejected patch whose report failed, and the pass never ends early"}
